@@ -28,4 +28,4 @@ Definition denoted_content (c : case) : res ccas :=
   res_map with_initial (denote_xmi (flt_of c) (c_schema c) (c_doc c)).
 Definition check_case (c : case) : bool := same_as_obs c (model_content c) && same_as_obs c (denoted_content c).
 (* premises of C05_load_xmi_is_denotation *)
-Definition premises (c : case) : bool := doc_ok_xmi (flt_of c) (c_schema c) (c_doc c).
+Definition premises (c : case) : bool := reader_okb (flt_of c) (c_schema c) (c_doc c).
